@@ -29,6 +29,7 @@ type SynChange struct {
 	Added   int    `json:"added"`
 	Deleted int    `json:"deleted"`
 	Full    bool   `json:"full,omitempty"`
+	Liberal bool   `json:"liberal,omitempty"` // brace form with an empty prefix where git itself would print old => new
 }
 
 type SynCommit struct {
@@ -89,6 +90,7 @@ func genSyn(t *rapid.T) SynCase {
 			}
 			if d.Kind == 'R' {
 				ch.Full = rapid.IntRange(0, 3).Draw(t, "fullNotation") == 3 && !o.NoFullPathRename
+				ch.Liberal = !ch.Full && rapid.Bool().Draw(t, "liberalNotation")
 			}
 			sc.Changes = append(sc.Changes, ch)
 		}
@@ -116,6 +118,16 @@ func printed(ch SynChange) string {
 	case "R":
 		if ch.Full {
 			return ch.Old + " => " + ch.New
+		}
+		// git prints a move between the root and a top-level directory in the full-path form;
+		// a synthesised list may as well use the brace form with an empty prefix
+		if ch.Liberal {
+			if strings.HasSuffix(ch.New, "/"+ch.Old) && !strings.Contains(ch.Old, "/") {
+				return "{ => " + strings.TrimSuffix(ch.New, "/"+ch.Old) + "}/" + ch.Old
+			}
+			if strings.HasSuffix(ch.Old, "/"+ch.New) && !strings.Contains(ch.New, "/") {
+				return "{" + strings.TrimSuffix(ch.Old, "/"+ch.New) + " => }/" + ch.New
+			}
 		}
 		return ggen.PrintRename(ch.Old, ch.New)
 	case "D":
